@@ -42,6 +42,19 @@ def main() -> int:
     ctx.assumptions = list(getattr(mod, "ASSUMPTIONS", []))
     broken: list[str] = []  # proof obligations / translator outputs that no longer check
 
+    # global safety net: a check must end even when a model call or a shrinker gets stuck on a broken tree
+    import signal
+
+    class TimeBudget(Exception):
+        pass
+
+    def _on_alarm(signum, frame):
+        raise TimeBudget()
+
+    deadline = int(os.environ.get("VERIF_DEADLINE", "0") or 0) or (1200 if a.tier == "quick" else 5400)
+    signal.signal(signal.SIGALRM, _on_alarm)
+    signal.alarm(deadline)
+    obligations = None
     try:
         # 1. regenerate the translated slice from the working tree, build, audit
         obligations = None
@@ -105,8 +118,18 @@ def main() -> int:
                          "model/implementation correspondence or a proof obligation no longer checks; "
                          "no input on which the property itself fails was found",
                          {"broken_obligations": broken, "trace_divergences": tdiv[:5]}, no_input=True)
+        signal.alarm(0)
         rc = ctx.finish(obligations, {"broken_obligations": broken})
         return rc
+    except TimeBudget:
+        signal.alarm(0)
+        ctx.notes.append(f"time budget of {deadline} s exceeded; run cut short")
+        if ctx.violations:
+            # violations found before the budget ran out are real: report them
+            return ctx.finish(obligations, {"broken_obligations": broken, "cut_short": True})
+        print(f"INFRASTRUCTURE FAILURE ({a.prop}): time budget of {deadline} s exceeded without a verdict",
+              file=sys.stderr)
+        return 2
     except core.Infra as e:
         print(f"INFRASTRUCTURE FAILURE ({a.prop}): {e}", file=sys.stderr)
         return 2
